@@ -408,4 +408,5 @@ func (ds *Dataset) GetChangesWatermark2() (uint64, error) {
 }
 
 var _ = sort.Strings
+var _ = os.Getenv
 var _ = strings.HasPrefix
